@@ -66,6 +66,11 @@ def _tok_stream(ctx: Ctx):
     lits, descr, strings = [], [], []
     for i in range(ctx.n(1500, 30000)):
         s = "".join(rng.choice(ALPHA) for _ in range(rng.randint(0, 14)))
+        if i % 8 == 0:
+            # quoted regions with backslash escapes, in particular as the LAST characters before the closing delimiter
+            pieces = ["`a\\\\`", "{x\\\\}", "`we\\``", "%in\\%%", "f('\\'')", '"a\\""', "`\\\\`", "{\\}}", "`a\\b`", "{a\\ }", "g(`c\\``)", "'\\\\'",
+                      "a", "b", "(", ")", "`x y`", "{a+b}"]
+            s = rng.choice(["", " "]).join(x for k in range(rng.randint(1, 3)) for x in (rng.choice(pieces), rng.choice(["+", "~", ":", " ", "**", "-"])))[:-1]
         try:
             toks = list(tokenize(s))
             exp = "inl " + clist(f"({cstr(t.token)},{KIND[t.kind.value]}%nat,{t.source_start}%nat,{t.source_end}%nat)" for t in toks)
@@ -297,7 +302,57 @@ def _quoted_in_python(ctx: Ctx):
         ctx.count("quoted-python", fn)
 
 
+def _string_literals(ctx: Ctx):
+    """string literals inside Python code reach the called function character for character -- escaped quotes of their own kind, back-quotes,
+    braces, operator characters -- and back-quoted names next to them still reference their column"""
+    import numpy as np
+    import pandas as pd
+    from formulaic import model_matrix
+    rng = ctx.fork("string-literals")
+    n = 4
+    df = pd.DataFrame({"x y": [1.0, 2.0, 3.0, 4.0], "a": [4.0, 3.0, 2.0, 1.0], "b-c": [0.5, 1.5, 2.5, 3.5]})
+    texts = ["it's", "it's `x`", 'say "hi"', "a `b` c", "~ | + {}", "back\\slash", "tick ` alone", "'", '"', "`x y`", "end\\", "{`a`}", "%in%", "two  blanks", ""]
+    for i in range(ctx.n(120, 1500)):
+        k = rng.randint(1, 3)
+        args, want = [], []
+        for _ in range(k):
+            if rng.random() < 0.35:
+                col = rng.choice(list(df.columns))
+                args.append(f"`{col}`" if rng.random() < 0.7 or not col.isidentifier() else col)
+                want.append(("col", col))
+            else:
+                t = rng.choice(texts)
+                q = rng.choice(["'", '"'])
+                lit = q + t.replace("\\", "\\\\").replace(q, "\\" + q) + q
+                args.append(lit)
+                want.append(("str", t.replace("\\\\", "\\") if False else t))
+        seen = []
+
+        def probe(*a):
+            seen.append(a)
+            return np.ones(n)
+        f = "probe(" + rng.choice([", ", ","]).join(args) + ") - 1"
+        rp = {"kind": "string-literals", "formula": f}
+        ctx.oracle_runs += 1
+        try:
+            model_matrix(f, df, context={"probe": probe})
+        except Exception as e:
+            ctx.fail(f"{f!r}: {type(e).__name__}: {str(e)[:200]}", rp)
+            continue
+        got = seen[-1] if seen else ()
+        ok = len(got) == len(want)
+        for g, (kind, v) in zip(got, want):
+            if kind == "str":
+                ok = ok and isinstance(g, str) and g == v.replace("\\\\", "\\")
+            else:
+                ok = ok and hasattr(g, "tolist") and list(g) == list(df[v])
+        if not ok:
+            ctx.fail(f"{f!r}: the function received {[x if isinstance(x, str) else list(x) for x in got]}, written were {want}", rp)
+        ctx.count("string-literals", f"args={k}")
+
+
 def run(ctx: Ctx):
+    _string_literals(ctx)
     _quoted_in_python(ctx)
     _tok_stream(ctx)
     _ws_stream(ctx)
